@@ -82,7 +82,7 @@ MUTATIONS = {
     ),
     "c05-iterator-set-padding-stale-size": dict(
         file="render/_iterator.py", props=["C05"],
-        old="        self._padded_size = padding.get_padded_size(self._renderable_data.size)\n",
+        old="        self._padded_size = self._padding.get_padded_size(self._renderable_data.size)\n",
         new="",
     ),
     "c05-to-exact-drops-fill": dict(
